@@ -3,6 +3,7 @@
 #include "common.hpp"
 #include "oracle/oracle.hpp"
 #include <cfloat>
+#include <cerrno>
 using namespace vh;
 using namespace MASA;
 using orc::EQ;
@@ -71,13 +72,17 @@ static void run_solution(const orc::Sol& sol, const SolSpec& spec, uint64_t seed
   if (!reselect) for (auto& n : names) defv[n] = (long double)masa_get_param<S>(n);
   std::map<std::string, long double> setv;          // value last passed to masa_set_param (or reported after masa_init_param), per name
   orc::Ctx base; base.sol = sol.name; base.nx = sol.nargs;
+  base.fields_only = !classes.count("source");
   bool loose_state = false, irregular_state = false;
+  int prev_kind = 0;
   for (long cs = case0; cs < case0 + ncases; cs++) {
     Rng r(seed, strhash(sol.name) * 1000003ULL + (uint64_t)cs * 2 + (sizeof(S) == 8 ? 0 : 1));
     // case kinds: fresh (every parameter redrawn) | delta (1-3 parameters changed, the rest kept) | defaults (masa_init_param) |
     // partial (1-3 independent parameters back to their default values) | stretch (fresh, then groups of parameters scaled by powers of ten)
     int kind = 0;
-    if (setv.size() == names.size()) { int m = r.below(16); kind = m < 7 ? 0 : m < 11 ? 1 : m < 12 ? 2 : m < 14 ? 3 : 4; }
+    // ... | pair shift (two parameters moved by +d and -d, d a small integer: a change that leaves every sum of parameters unchanged;
+    // always tried right after a default case, where all values are round numbers and the shift is exact)
+    if (setv.size() == names.size()) { int m = r.below(17); kind = m < 7 ? 0 : m < 11 ? 1 : m < 12 ? 2 : m < 14 ? 3 : m < 16 ? 4 : 5; if (prev_kind == 2 && r.coin()) kind = 5; }
     if (kind == 3 && defv.empty()) kind = 1;
     if (kind == 4 && !sol.stretch) kind = 0;
     std::vector<std::pair<std::string, long double>> changes;
@@ -119,6 +124,17 @@ static void run_solution(const orc::Sol& sol, const SolSpec& spec, uint64_t seed
                     JObj().str("solution", sol.name).str("parameter", n).num("after_init", defv[n]).num("after_init_param", (long double)v).done());
       }
       LOG.count("default_parameter_cases(masa_init_param)", 1);
+    } else if (kind == 5) {
+      std::vector<std::string> el;
+      for (auto& n : names) if (orc::delta_kind_of(sol, n) == 1 && fabsl(setv[n]) >= 4) el.push_back(n);
+      if (el.size() >= 2) {
+        size_t i = (size_t)r.below((int)el.size()), j = (i + 1 + (size_t)r.below((int)el.size() - 1)) % el.size();
+        static const long double D[] = {1, 2, 5, 20, 100, 0.5L};
+        long double dmax = 0.2L * std::min(fabsl(setv[el[i]]), fabsl(setv[el[j]])), dd = D[r.below(6)];
+        while (dd > dmax) dd /= 2;
+        changes.push_back({el[i], setv[el[i]] - dd}); changes.push_back({el[j], setv[el[j]] + dd});
+        LOG.count("pair_shift_cases", 1);
+      }
     } else {
       int k = 1 + r.below(3);
       for (int i = 0; i < k; i++) {
@@ -126,6 +142,18 @@ static void run_solution(const orc::Sol& sol, const SolSpec& spec, uint64_t seed
         if (orc::delta_kind_of(sol, n) == 1) changes.push_back({n, defv[n]});
       }
       LOG.count("partial_default_cases", 1);
+    }
+    prev_kind = kind;
+    // gradient-only runs (C07 speaks of all parameters): one fresh case in twenty has a whole field identically zero (offset and amplitudes)
+    if (kind == 0 && !classes.count("source") && !classes.count("exact") && r.below(20) == 0) {
+      std::vector<std::string> pre;
+      for (auto& n : names) { size_t us = n.rfind('_'); if (us != std::string::npos && us > 0 && n.rfind("a_", 0) != 0 && n.size() - us == 2 && n.back() == '0') pre.push_back(n.substr(0, us + 1)); }
+      for (auto& n : names) if (n == "a_rho0" || n == "a_T0" || n == "a_u0") pre.push_back(n.substr(0, n.size() - 1));
+      if (!pre.empty()) {
+        const std::string& q = pre[(size_t)r.below((int)pre.size())];
+        for (auto& ch : changes) if (ch.first.rfind(q, 0) == 0 && (q[0] == 'a' || ch.first.size() == q.size() + 1)) ch.second = 0;
+        special += q + "*=0 "; LOG.count("gradient_cases_with_a_field_identically_zero", 1);
+      }
     }
     std::set<long double> seen;
     for (auto& ch : changes) {
@@ -153,37 +181,16 @@ static void run_solution(const orc::Sol& sol, const SolSpec& spec, uint64_t seed
     int cbk = r.below(orc::chem_ncb());
     for (int pt = 0; pt < npoints; pt++) {
       long double xs[4] = {0, 0, 0, 0};
-      sol.point(r, xs, sol.nargs);
-      // structured points: a coordinate exactly 0 (axes, t = 0) where the domain allows it
-      if (sol.zero_coord_from >= 0 && r.below(6) == 0) { int ci = sol.zero_coord_from + r.below(std::max(1, sol.nargs - sol.zero_coord_from)); if (ci < sol.nargs) { xs[ci] = 0; LOG.count("points_on_an_axis", 1); } }
-      // a coordinate very close to (but not on) an axis: 10^-U(1,7), positive where the domain requires it
-      if (sol.zero_coord_from >= 0 && r.below(6) == 0) {
-        int ci = r.below(sol.nargs);
-        long double tiny = powl(10.0L, -r.uni(1.0L, 7.0L));
-        xs[ci] = (ci < sol.zero_coord_from || r.coin()) ? tiny : -tiny;
-        LOG.count("points_with_a_coordinate_near_zero", 1);
-      }
-      // structured and far points (box-shaped domains only): all coordinates equal; a coordinate equal to the length scale, half of it or twice it;
-      // small integers; the box stretched 5x (one point in ten) or 50x (one in fifty) - a fault may sit in a relation between the point and
-      // a parameter, or outside the few units around the origin where everything else is sampled
-      bool far_pt = false;
-      if (sol.point == orc::box_point) {
-        int sk = r.below(40);
-        long double Lp = setv.count("L") ? setv["L"] : setv.count("Lx") ? setv["Lx"] : 1.0L;
-        if (sk == 0) { for (int i = 1; i < sol.nargs; i++) xs[i] = xs[0]; LOG.count("points_with_all_coordinates_equal", 1); }
-        else if (sk == 1 || sk == 2) { static const long double F[] = {1.0L, 0.5L, 2.0L, -1.0L, 0.25L}; xs[r.below(sol.nargs)] = Lp * F[r.below(5)]; LOG.count("points_with_a_coordinate_tied_to_L", 1); }
-        else if (sk == 3) { xs[r.below(sol.nargs)] = (long double)(r.below(7) - 3); LOG.count("points_with_an_integer_coordinate", 1); }
-        else if (sk < 8) { for (int i = 0; i < sol.nargs; i++) xs[i] *= 5; far_pt = true; LOG.count("points_in_the_5x_box", 1); }
-        else if (sk == 8) { for (int i = 0; i < sol.nargs; i++) xs[i] *= 50; far_pt = true; LOG.count("points_in_the_50x_box", 1); }
-      }
-      if (pt == 0 && have_prev) for (int i = 0; i < 4; i++) xs[i] = prev_pt[i];   // same point, new parameters
-      for (int i = 0; i < 4; i++) prev_pt[i] = xs[i];
-      have_prev = true;
-      bool irregular_pt = irregular_case || far_pt;
-      for (int i = 0; i < sol.nargs; i++) if (fabsl(xs[i]) < 0.05L) irregular_pt = true;
+      orc::PointInfo pinfo;
+      orc::make_point(r, sol, setv, prev_pt, have_prev, pt == 0 && have_prev, xs, pinfo);
+      if (!pinfo.kind.empty()) LOG.count("point_kind:" + pinfo.kind.substr(0, pinfo.kind.find(' ')), 1);
+      if (pinfo.kind.find("axis") != std::string::npos && pinfo.kind.find("near") == std::string::npos) LOG.count("points_on_an_axis", 1);
+      bool irregular_pt = irregular_case || pinfo.irregular;
       S a[4]; long double al[4];
       orc::Ctx c = base;
       for (int i = 0; i < sol.nargs; i++) { a[i] = (S)xs[i]; al[i] = (long double)a[i]; xs[i] = (long double)a[i]; c.x[i] = EQ::exact((orc::Q)a[i]); }
+      for (int i = 0; i < 4; i++) prev_pt[i] = xs[i];   // as passed to the library (bit-identical re-use of coordinates)
+      have_prev = true;
       orc::chem_select(c, cbk);
       sol.eval(c);
       if (c.near_branch) { g_skipped_branch++; continue; }
@@ -204,6 +211,8 @@ static void run_solution(const orc::Sol& sol, const SolSpec& spec, uint64_t seed
           if (!finiteq(ref.ref.v) || !std::isfinite(ref.ref.e)) { g_ref_nonfinite++; continue; }
           set_ctx("eval:" + sol.name + ":" + e.id, "masa_eval_" + e.name + "<" + P + "> on " + sol.name + " at " + point_json(xs, sol.nargs));
           if (e.kind == KF) orc::chem_rec_reset();
+          // the value must not depend on what errno held on entry (left over from an unrelated libm call anywhere in the process)
+          { static const int EN[] = {0, EDOM, ERANGE, EINVAL}; errno = EN[r.below(4)]; }
           CAP.begin();
           S lib = call_ev<S>(e, a, dir, cb<S>(cbk));
           std::string out = CAP.end();
